@@ -62,24 +62,29 @@ def cursor_loop(ctx, body, lp):
             t = ctx.eng.rvalue(body, d[0], d[1], d[3]['rv']) if d[2] == 'assign' else ctx.eng.call_result(body, d[0])
             while t.tag == 'mut':
                 t = t[1]
-            # field 1 of split_at(<this local, as carried into the iteration>, n)
-            if not (t.tag == 'field' and t[1] == '1' and t[2].tag == 'adapt' and t[2][1] in ('split_at', 'split_at_checked') and len(t[2].args) >= 3):
+            # one or more layers of `.1 of split_at(.., n)` around this local as carried into the iteration
+            layers = 0
+            cur = t
+            while cur.tag == 'field' and cur[1] == '1' and cur[2].tag == 'adapt' and cur[2][1] in ('split_at', 'split_at_checked') and len(cur[2].args) >= 3:
+                n = cur[2][3]
+                nn = n[1] if n.tag == 'const' and isinstance(n[1], int) else None
+                if n.tag == 'binop' and n[1] == 'Mul' and all(x.tag == 'const' and isinstance(x[1], int) for x in (n[2], n[3])):
+                    nn = n[2][1] * n[3][1]
+                if nn is None or nn < 1:
+                    layers = 0
+                    break
+                n_min = nn if n_min is None else min(n_min, nn)
+                layers += 1
+                cur = cur[2][2]
+                while cur.tag == 'mut':
+                    cur = cur[1]
+            if layers == 0 or not (cur.tag == 'lv' and cur[2] == l):
                 good = False
                 break
-            src, n = t[2][2], t[2][3]
-            while src.tag == 'mut':
-                src = src[1]
-            nn = n[1] if n.tag == 'const' and isinstance(n[1], int) else None
-            if n.tag == 'binop' and n[1] == 'Mul' and all(x.tag == 'const' and isinstance(x[1], int) for x in (n[2], n[3])):
-                nn = n[2][1] * n[3][1]
-            if not (src.tag == 'lv' and src[2] == l) or nn is None or nn < 1:
-                good = False
-                break
-            n_min = nn if n_min is None else min(n_min, nn)
         if not good:
             continue
         # the loop continues only through such a definition
-        if all(ctx.every_iteration(body, lp, d[0]) for d in ins) or len(ins) == 1 and _back_edges_pass(ctx, body, lp, ins[0][0]):
+        if all(ctx.every_iteration(body, lp, d[0]) for d in ins) or any(_back_edges_pass(ctx, body, lp, d[0]) for d in ins):
             return 'every continuing iteration advances the slice `%s` by %d element(s) (at most len/%d iterations)' % (body.local_name(l) or '_%d' % l, n_min, n_min)
     return None
 
